@@ -370,9 +370,11 @@ def expected_outcome(d, cfg):
     return 'reject' if topo_bad else 'ok'
 
 
-def oracle_pools(chk, name, d, res, stats):
+def oracle_pools(chk, name, d, res, stats, machine=None):
     cfg = res['cfg']
     rp = {'tree': name, 'cfg': cfg}
+    if machine is not None:
+        rp['machine'] = {k: v for k, v in machine.items() if not k.startswith('_')}
     def bad(sig, what):
         chk.violation(sig, '%s %s: %s' % (name, json.dumps(cfg), what), rp)
     exp = expected_outcome(d, cfg)
@@ -529,6 +531,7 @@ def run(tier, seed, replay=None):
     machines = G.fixed_machines()
     for i in range(nrand):
         machines.append(G.gen_machine(rng, 'r%d' % i, max_cpus=40 if tier == 'quick' else 64))
+    rp = {}
     if replay:
         rp = json.load(open(replay)).get('replay', {})
         if 'machine' in rp:
@@ -542,7 +545,10 @@ def run(tier, seed, replay=None):
             p = os.path.join(W, 'm_%s.json' % m['name'])
             G.dump(m, p)
             g.write(p + '\n')
-            cases.append(dict(name=m['name'], machine=p, fixture='', cfgs=[dict(avail=a, reserved=r) for a, r in G.gen_cfgs(rng, m, ncfg)]))
+            cfgs = [dict(avail=a, reserved=r) for a, r in G.gen_cfgs(rng, m, ncfg)]
+            if replay and m['name'] == 'replay' and 'cfg' in rp:
+                cfgs.insert(0, rp['cfg'])
+            cases.append(dict(name=m['name'], machine=p, fixture='', cfgs=cfgs))
     with open(os.path.join(W, 'fixtures.txt'), 'w') as g:
         for name, d in fx:
             g.write('%s %s\n' % (name, d))
@@ -584,7 +590,7 @@ def run(tier, seed, replay=None):
         for res in r['results']:
             nsetups += 1
             nrej += res['outcome'] == 'reject'
-            oracle_pools(chk, r['name'], r['sys'], res, stats)
+            oracle_pools(chk, r['name'], r['sys'], res, stats, bym.get(r['name']))
             if res['outcome'] == 'ok':
                 shapes.add((r['name'], tuple(sorted((p['kind'], p['depth']) for p in res['pools'])), tuple(res['allowed']), tuple(res['preserved'])))
 
